@@ -1,9 +1,360 @@
-# C09 leaves: the one scalar formula on the bootstrap path of the anchored files.
-# RDMs.subsample builds its result from 2-d vectors, so the number of conditions of every
-# RDM-resampled sample is *recovered* from the vector length by this text.
-# (The `np.random.randint(0, len(select), size=len(select))` request is a call, not arithmetic:
-#  it is tied at run time by comparing the recorded request with the model's `drawSpec`.)
+"""Leaf specs for C09 (bootstrap resampling).
+
+Native py2lean leaf
+  nFromReduced   util/rdm_utils.py:_get_n_from_reduced_vectors  (size recovery after `subsample`)
+
+Derived leaves (round 3).  The text that matters most for C09 is not arithmetic but the *arguments of
+a call* and the *order of two array statements*:
+
+  inference/bootstrap.py   X = np.random.randint(<low>, <high>, size=<size>) ; idx = S[X]
+                           with S = np.unique(<descriptor>)  or  (.., S) = add_pattern_index(..)
+  util/rdm_utils.py        add_pattern_index: pattern_select = np.unique(pattern_select)
+  rdm/rdms.py              subsample_pattern: fill_diagonal(.., nan) *before* m[:, sel][:, :, sel]
+
+This module reads those statements from the source tree under check (Python `ast`), derives tiny
+scalar functions from them and writes them to `harness/leaves/_C09_derived.py`; py2lean then
+translates those as usual (same technique as leaves/C18.py).  Nothing is cached.  Every derivation
+fails closed: an unexpected shape of the anchor (a conditional around the request, a select array
+that is neither `np.unique(..)` nor the plain descriptor, a masked assignment on the matrices ...)
+gives a function calling `__underivable__`, which py2lean reports as an untranslatable leaf =
+broken obligation.
+
+  req{BothR,BothP,Rdm,Pat}{Low,High,Size}(n_unique, n_items)
+        the three arguments of the randint request of each of the four call sites, as a function
+        of the number of distinct descriptor values and the number of items on that axis
+        (`len(S)` is n_unique when S = np.unique(..), n_items when S is the descriptor itself)
+  hasTest{Both,Pattern,Rdm}(n_pattern_test, n_rdm_test)
+        inference/boot_testset.py: 1 if the bootstrap sample is evaluated on a test set (enough groups
+        left out), from the `if len(pattern_idx_test) >= 3 and len(rdm_idx_test) >= 1:` tests, after
+        checking that the left-out groups are np.setdiff1d(descriptor, drawn indices)
+  entryIsNan(same)
+        1 if the sample entry pairing two original conditions is forced to NaN, 0 if it is the source
+        entry; `same` = 1 when the two original conditions coincide.  Derived from the fill value of
+        np.fill_diagonal and from its position before the fancy-indexing statement.
+"""
+import ast
+import os
+
+SRC = os.environ.get('RSA_REPO_SRC', '/repo/src/rsatoolbox')
+HERE = os.path.dirname(os.path.abspath(__file__))
+DERIVED = os.path.join(HERE, '_C09_derived.py')
+
+
+class Underivable(Exception):
+    pass
+
+
+def _func(path, name):
+    tree = ast.parse(open(os.path.join(SRC, path)).read())
+    for node in ast.walk(tree):
+        if isinstance(node, ast.FunctionDef) and node.name == name:
+            return node
+    raise Underivable(f'{path}: function {name} not found')
+
+
+def _is_randint(call):
+    return isinstance(call, ast.Call) and ast.unparse(call.func) in (
+        'np.random.randint', 'numpy.random.randint', 'random.randint', 'randint')
+
+
+def _unique_of(e):
+    """E if e is np.unique(E) (no further arguments), else None"""
+    if isinstance(e, ast.Call) and ast.unparse(e.func) in ('np.unique', 'numpy.unique') \
+            and len(e.args) == 1 and not e.keywords:
+        return e.args[0]
+    return None
+
+
+def _pattern_index_kind():
+    """what `add_pattern_index` returns as its second value: 'unique' | 'items'"""
+    fn = _func('util/rdm_utils.py', 'add_pattern_index')
+    rets = [n for n in ast.walk(fn) if isinstance(n, ast.Return)]
+    if len(rets) != 1 or not isinstance(rets[0].value, ast.Tuple) or len(rets[0].value.elts) != 2 \
+            or not isinstance(rets[0].value.elts[1], ast.Name):
+        raise Underivable('add_pattern_index does not end in `return name, select`')
+    var = rets[0].value.elts[1].id
+    kind = None
+    for st in fn.body:                      # top level only: a conditional assignment is a surprise
+        if isinstance(st, ast.Assign) and len(st.targets) == 1 \
+                and isinstance(st.targets[0], ast.Name) and st.targets[0].id == var:
+            inner = _unique_of(st.value)
+            if inner is not None and (ast.unparse(inner) == var and kind == 'items'
+                                      or 'pattern_descriptors[' in ast.unparse(inner)):
+                kind = 'unique'
+            elif 'pattern_descriptors[' in ast.unparse(st.value) and isinstance(st.value, ast.Subscript):
+                kind = 'items'
+            else:
+                raise Underivable(f'add_pattern_index: unexpected `{ast.unparse(st)}`')
+    nested = [n for n in ast.walk(fn) if isinstance(n, ast.Assign) and n not in fn.body
+              and any(isinstance(t, ast.Name) and t.id == var for t in n.targets)]
+    if nested or kind is None:
+        raise Underivable('add_pattern_index: select is assigned conditionally or never')
+    return kind
+
+
+def _select_kind(fn, upto, svar):
+    """how the select array `svar` was built before statement number `upto`:
+    returns (kind, axis) with kind 'unique' | 'items'"""
+    found = None
+    for st in fn.body[:upto]:
+        if not isinstance(st, ast.Assign) or len(st.targets) != 1:
+            continue
+        t = st.targets[0]
+        if isinstance(t, ast.Name) and t.id == svar:
+            inner = _unique_of(st.value)
+            e = inner if inner is not None else st.value
+            if isinstance(e, ast.Call) and ast.unparse(e.func) in ('np.asarray', 'np.array') \
+                    and len(e.args) == 1 and not e.keywords:
+                e = e.args[0]
+            text = ast.unparse(e)
+            if not isinstance(e, ast.Subscript):
+                raise Underivable(f'select `{ast.unparse(st)}` is not built from a descriptor')
+            if '.rdm_descriptors[' in text:
+                axis = 'rdm'
+            elif '.pattern_descriptors[' in text:
+                axis = 'pattern'
+            else:
+                raise Underivable(f'select `{ast.unparse(st)}` is not built from a descriptor')
+            found = ('unique' if inner is not None else 'items', axis)
+        elif isinstance(t, ast.Tuple) and len(t.elts) == 2 and isinstance(t.elts[1], ast.Name) \
+                and t.elts[1].id == svar:
+            if not (isinstance(st.value, ast.Call) and ast.unparse(st.value.func) == 'add_pattern_index'):
+                raise Underivable(f'select `{ast.unparse(st)}` does not come from add_pattern_index')
+            found = (_pattern_index_kind(), 'pattern')
+    if found is None:
+        raise Underivable(f'no top-level assignment to the select array {svar}')
+    return found
+
+
+class _LenSubst(ast.NodeTransformer):
+    def __init__(self, svar, kind):
+        self.svar, self.kind = svar, kind
+
+    def visit_Call(self, node):
+        t = ast.unparse(node)
+        s = self.svar
+        if t in (f'len(np.unique({s}))', f'np.unique({s}).size', f'len(set({s}))'):
+            return ast.Name(id='n_unique', ctx=ast.Load())
+        if t == f'len({s})':
+            return ast.Name(id='n_unique' if self.kind == 'unique' else 'n_items', ctx=ast.Load())
+        return self.generic_visit(node)
+
+    def visit_Attribute(self, node):
+        if ast.unparse(node) == f'{self.svar}.size':
+            return ast.Name(id='n_unique' if self.kind == 'unique' else 'n_items', ctx=ast.Load())
+        return self.generic_visit(node)
+
+    def visit_Subscript(self, node):
+        if ast.unparse(node) == f'{self.svar}.shape[0]':
+            return ast.Name(id='n_unique' if self.kind == 'unique' else 'n_items', ctx=ast.Load())
+        return self.generic_visit(node)
+
+
+def _requests(func_name, axes):
+    """[(low, high, size)] source texts (in n_unique / n_items) of the randint requests of one
+    function; `axes` = the axis each request must concern, in order"""
+    fn = _func('inference/bootstrap.py', func_name)
+    n_all = sum(1 for n in ast.walk(fn) if _is_randint(n))
+    sites = [(k, st) for k, st in enumerate(fn.body)
+             if isinstance(st, ast.Assign) and len(st.targets) == 1
+             and isinstance(st.targets[0], ast.Name) and _is_randint(st.value)]
+    if n_all != len(axes) or len(sites) != len(axes):
+        raise Underivable(f'{func_name}: expected {len(axes)} top-level randint requests, found '
+                          f'{len(sites)} (of {n_all} in the function)')
+    out = []
+    for (k, st), axis in zip(sites, axes):
+        call, tvar = st.value, st.targets[0].id
+        pos, kws = list(call.args), {kw.arg: kw.value for kw in call.keywords}
+        if set(kws) - {'size', 'low', 'high'}:
+            raise Underivable(f'{func_name}: unexpected keyword in `{ast.unparse(call)}`')
+        low = kws.get('low')
+        high = kws.get('high')
+        size = kws.get('size')
+        if len(pos) == 1 and high is None and low is None:
+            low, high = ast.Constant(value=0), pos[0]       # randint(high, size=..)
+        elif len(pos) >= 2:
+            low, high = pos[0], pos[1]
+            if len(pos) == 3 and size is None:
+                size = pos[2]
+            elif len(pos) > 2:
+                raise Underivable(f'{func_name}: `{ast.unparse(call)}`')
+        if low is None or high is None or size is None:
+            raise Underivable(f'{func_name}: cannot read low/high/size of `{ast.unparse(call)}`')
+        # the drawn numbers must index the select array in the very next use:  X = S[T]
+        use = None
+        for st2 in fn.body[k + 1:]:
+            if isinstance(st2, ast.Assign) and isinstance(st2.value, ast.Subscript) \
+                    and isinstance(st2.value.value, ast.Name) \
+                    and ast.unparse(st2.value.slice) == tvar:
+                use = st2
+                break
+            if tvar in {n.id for n in ast.walk(st2) if isinstance(n, ast.Name)}:
+                break
+        if use is None:
+            raise Underivable(f'{func_name}: the draws `{tvar}` do not index a select array next')
+        svar = use.value.value.id
+        kind, got_axis = _select_kind(fn, k, svar)
+        if got_axis != axis:
+            raise Underivable(f'{func_name}: request {len(out)} draws {got_axis} groups, expected {axis}')
+        sub = _LenSubst(svar, kind)
+        texts = []
+        for e in (low, high, size):
+            new = sub.visit(ast.parse(ast.unparse(e), mode='eval').body)
+            texts.append(ast.unparse(ast.fix_missing_locations(new)))
+        out.append(tuple(texts))
+    return out
+
+
+def _entry_is_nan():
+    fn = _func('rdm/rdms.py', 'subsample_pattern')
+    var = 'dissimilarities'
+    i_get = i_fill = i_sel = None
+    fill = None
+    for k, st in enumerate(fn.body):
+        if isinstance(st, ast.Assign) and len(st.targets) == 1 and ast.unparse(st.targets[0]) == var:
+            t = ast.unparse(st.value)
+            if t == 'self.get_matrices()':
+                if i_get is not None:
+                    raise Underivable('two reads of get_matrices()')
+                i_get = k
+            elif t.replace(' ', '') == f'{var}[:,selection][:,:,selection]':
+                if i_sel is not None:
+                    raise Underivable('two fancy-indexing statements')
+                i_sel = k
+            else:
+                raise Underivable(f'unexpected `{ast.unparse(st)}`')
+        elif isinstance(st, ast.For):
+            body = st.body
+            if ast.unparse(st.iter) == 'range(self.n_rdm)' and isinstance(st.target, ast.Name) \
+                    and len(body) == 1 and isinstance(body[0], ast.Expr) \
+                    and isinstance(body[0].value, ast.Call) \
+                    and ast.unparse(body[0].value.func) == 'np.fill_diagonal' \
+                    and len(body[0].value.args) == 2 and not body[0].value.keywords \
+                    and ast.unparse(body[0].value.args[0]) == f'{var}[{st.target.id}]' \
+                    and not st.orelse:
+                if i_fill is not None:
+                    raise Underivable('two fill_diagonal loops')
+                i_fill, fill = k, ast.unparse(body[0].value.args[1])
+            elif var in ast.unparse(st):
+                raise Underivable(f'unexpected loop over the matrices: `{ast.unparse(st)[:60]}`')
+        elif any(isinstance(n, (ast.Subscript, ast.Name)) and isinstance(getattr(n, 'ctx', None), ast.Store)
+                 and var in ast.unparse(n) for n in ast.walk(st)):
+            raise Underivable(f'unexpected write to the matrices: `{ast.unparse(st)[:60]}`')
+    n_fill = sum(1 for n in ast.walk(fn) if isinstance(n, ast.Call)
+                 and ast.unparse(n.func) == 'np.fill_diagonal')
+    if None in (i_get, i_fill, i_sel) or n_fill != 1:
+        raise Underivable('get_matrices / fill_diagonal loop / fancy indexing not all found once')
+    if not i_get < i_fill < i_sel:
+        raise Underivable('the diagonal is not filled between get_matrices() and the selection')
+    if fill not in ('np.nan', 'numpy.nan', 'float("nan")', "float('nan')", 'math.nan'):
+        raise Underivable(f'the diagonal is filled with `{fill}`, not NaN')
+    # source diagonal := NaN, then sample[i, j] = source[sel[i], sel[j]]
+    return '(1 if same == 1 else 0)'
+
+
+def _has_test(func_name, axes):
+    """the condition under which `bootstrap_testset*` evaluates on a test set, in terms of the
+    number of left-out pattern / rdm groups; checks that the left-out groups are
+    np.setdiff1d(<descriptor>, <drawn indices>)"""
+    tree = ast.parse(open(os.path.join(SRC, 'inference/boot_testset.py')).read())
+    fns = [n for n in ast.walk(tree) if isinstance(n, ast.FunctionDef) and n.name == func_name]
+    if len(fns) != 1:
+        raise Underivable(f'boot_testset.py: {func_name} not found')
+    fn = fns[0]
+    loops = [s for s in fn.body if isinstance(s, ast.For)]
+    if len(loops) != 1:
+        raise Underivable(f'{func_name}: expected one sampling loop')
+    body = loops[0].body
+    ifs = [s for s in body if isinstance(s, ast.If) and 'test_set' in ast.unparse(s.body)]
+    if len(ifs) != 1:
+        raise Underivable(f'{func_name}: the `if … test_set = …` block was not found once')
+    subs = {}
+    for axis in axes:
+        var, drawn = f'{axis}_idx_test', f'{axis}_idx'
+        hits = [s for s in body if isinstance(s, ast.Assign) and ast.unparse(s.targets[0]) == var]
+        if len(hits) != 2:
+            raise Underivable(f'{func_name}: expected two assignments to {var}')
+        first, second = ast.unparse(hits[0].value), ast.unparse(hits[1].value)
+        if f'.{axis}_descriptors[{axis}_descriptor]' not in first \
+                or second != f'np.setdiff1d({var}, {drawn})':
+            raise Underivable(f'{func_name}: {var} is not np.setdiff1d(descriptor, {drawn})')
+        subs[f'len({var})'] = f'n_{axis}_test'
+
+    class S(ast.NodeTransformer):
+        def visit_Call(self, node):
+            t = ast.unparse(node)
+            if t in subs:
+                return ast.Name(id=subs[t], ctx=ast.Load())
+            return self.generic_visit(node)
+    test = S().visit(ast.parse(ast.unparse(ifs[0].test), mode='eval').body)
+    return f'(1 if {ast.unparse(ast.fix_missing_locations(test))} else 0)'
+
+
+SITES = [('BothR', 'bootstrap_sample', 0), ('BothP', 'bootstrap_sample', 1),
+         ('Rdm', 'bootstrap_sample_rdm', 0), ('Pat', 'bootstrap_sample_pattern', 0)]
+AXES = {'bootstrap_sample': ['rdm', 'pattern'], 'bootstrap_sample_rdm': ['rdm'],
+        'bootstrap_sample_pattern': ['pattern']}
+
+
+def _derive():
+    out = ['# DERIVED by harness/leaves/C09.py from the source tree under check - do not edit', '']
+
+    def emit(name, params, body_fn):
+        try:
+            body = body_fn()
+        except Exception as exc:  # noqa: BLE001  (fail closed: any surprise = underivable)
+            body = '__underivable__(' + repr(str(exc)) + ')'
+        out.append(f'def {name}({", ".join(params)}):')
+        out.append(f'    return {body}')
+        out.append('')
+
+    cache = {}
+
+    def req(func, k, part):
+        def f():
+            if func not in cache:
+                try:
+                    cache[func] = _requests(func, AXES[func])
+                except Exception as exc:  # noqa: BLE001
+                    cache[func] = exc
+            if isinstance(cache[func], Exception):
+                raise cache[func]
+            return cache[func][k][part]
+        return f
+
+    for site, func, k in SITES:
+        for part, pname in enumerate(('low', 'high', 'size')):
+            emit(f'req_{site}_{pname}', ['n_unique', 'n_items'], req(func, k, part))
+    emit('entry_is_nan', ['same'], _entry_is_nan)
+    emit('has_test_both', ['n_pattern_test', 'n_rdm_test'],
+         lambda: _has_test('bootstrap_testset', ['pattern', 'rdm']))
+    emit('has_test_pattern', ['n_pattern_test', 'n_rdm_test'],
+         lambda: _has_test('bootstrap_testset_pattern', ['pattern']))
+    emit('has_test_rdm', ['n_pattern_test', 'n_rdm_test'],
+         lambda: _has_test('bootstrap_testset_rdm', ['rdm']))
+
+    text = '\n'.join(out)
+    if not (os.path.exists(DERIVED) and open(DERIVED).read() == text):
+        with open(DERIVED + '.tmp', 'w') as f:
+            f.write(text)
+        os.replace(DERIVED + '.tmp', DERIVED)
+
+
+_derive()
+
+_N2 = {'n_unique': 'Nat', 'n_items': 'Nat'}
 LEAVES = [
     dict(name='nFromReduced', file='util/rdm_utils.py', func='_get_n_from_reduced_vectors',
          kind='func', params={'x_shape_1': 'Nat'}, ret='Nat'),
+] + [
+    dict(name=f'req{site}{pname.capitalize()}', file=DERIVED, func=f'req_{site}_{pname}', kind='func',
+         params=_N2, ret='Nat')
+    for site, _, _ in SITES for pname in ('low', 'high', 'size')
+] + [
+    dict(name='entryIsNan', file=DERIVED, func='entry_is_nan', kind='func',
+         params={'same': 'Nat'}, ret='Nat'),
+] + [
+    dict(name=f'hasTest{k.capitalize()}', file=DERIVED, func=f'has_test_{k}', kind='func',
+         params={'n_pattern_test': 'Nat', 'n_rdm_test': 'Nat'}, ret='Nat')
+    for k in ('both', 'pattern', 'rdm')
 ]
